@@ -194,6 +194,20 @@ pub fn run(ctx: &mut Ctx) {
             }
         }
     }
+    ctx.stratum("T3-three-alternatives-all-orders", false);
+    let n3 = ctx.tier.n(3_000, 300_000);
+    for i in 0..n3 {
+        if !ctx.take() {
+            continue;
+        }
+        let mut r = Rng::for_case(ctx.seed, "C11-T3", i);
+        let t: Vec<String> = (0..3).map(|_| iv_text(r.pick(&tiv))).collect();
+        for o in [[0, 1, 2], [0, 2, 1], [1, 0, 2], [1, 2, 0], [2, 0, 1], [2, 1, 0]] {
+            if let Some(op) = operand_from_text(&format!("{} || {} || {}", t[o[0]], t[o[1]], t[o[2]])) {
+                judge(ctx, &op);
+            }
+        }
+    }
     ctx.stratum("R-random-parsed-ranges", false);
     let n = ctx.tier.n(60_000, 6_000_000);
     for i in 0..n {
